@@ -655,7 +655,7 @@ class NetworkService(ModelElement):
     def __repr__(self):
         _, node_properties = self.topo.graph_model.get_node_properties(node_id=self.node_id)
         service_sliver = self.topo.graph_model.network_service_sliver_from_graph_properties_dict(node_properties)
-        interface_names = [iff.name for iff in self._interfaces]
+        interface_names = [iff.name for iff in self.__current_interfaces()]
         return service_sliver.__repr__() + str(interface_names)
 
     def __str__(self):
